@@ -16,6 +16,8 @@ Driver for E7 (C11).  Two independent parts:
 
 Harness operations (see go/harness/mcp/zz_verif_sessions_test.go):
 `reset <stateful|stateless> <timeout ms>` · `post <ref> <user> <init|badinit|ping|notif|slow>` ·
+`postx <user> <kind>` (a creating POST during which the server closes the new session between `Connect`
+and the publication in `h.sessions` — F20) ·
 `release <slot>` · `get|delete|other <ref> <user>` · `tick <ms>` · `close <ref>` · `end`;
 `ref` = `-` | `s<k>` (k-th minted id) | `x<n>` (never minted); `user` = `anon|ue|u<n>`.
 -/
@@ -96,7 +98,7 @@ def isLive (s : State) (i : Nat) : Bool :=
   | none => false
 
 def showMap (s : State) : String :=
-  joinOr ((s.tbl.filter (fun e => !e.removed)).map fun e =>
+  joinOr ((s.tbl.filter (fun e => e.inMap)).map fun e =>
     s!"{sname e.id}/{showOwner e.owner}/r{e.refs}/t{b2n (e.timer != .nil)}/c{b2n e.closing}")
 
 def showSrv (s : State) : String :=
@@ -123,7 +125,7 @@ structure MSess where
 deriving Repr
 
 structure DState where
-  st : State := init { stateless := false, timeout := 100 }
+  st : State := init { stateless := false, timeout := 100, publishChecks := Generated.Sessions.publishChecksClosed }
   nslow : Nat := 0
   nasync : Nat := 0
   released : List Nat := []
@@ -132,6 +134,7 @@ structure DState where
   mon : List MSess := []
   mnow : Nat := 0
   mpend : List (String × String) := []    -- async tag ↦ session name
+  zombies : List String := []             -- F20: sessions closed during creation that were published anyway
 
 structure MOut where
   st : State
@@ -157,7 +160,14 @@ def modelOp (d : DState) (toks : List String) : Option MOut :=
     let nasync := if slow then d.nasync else d.nasync + 1
     let tag := if slow then s!"p{nslow}" else s!"q{nasync}"
     let base := { base with nslow := nslow, nasync := nasync }
-    match step st (.postBegin sid u k) with
+    -- without a session id on a stateful endpoint: `Connect`, then the publication answers
+    let first : Option (State × Resp) :=
+      if sid.isNone && !st.cfg.stateless then
+        match step st (.postBegin none u k) with
+        | some (st0, _) => step st0 (.publish st.next)
+        | none => none
+      else step st (.postBegin sid u k)
+    match first with
     | none => none
     | some (st1, .reject c) => some { base with st := st1, head := s!"{c} -" }
     | some (st1, .forward hdr deliver) =>
@@ -200,6 +210,22 @@ def modelOp (d : DState) (toks : List String) : Option MOut :=
             | _ => "200 -"
           some { base with st := st3, head := head, log := log }
     | some _ => none
+  | ["postx", user, kind] => do
+    let u ← parseUser user
+    let k ← parseKind kind
+    let slow := kind == "slow"
+    let nslow := if slow then d.nslow + 1 else d.nslow
+    let nasync := if slow then d.nasync else d.nasync + 1
+    let base := { base with nslow := nslow, nasync := nasync }
+    if st.cfg.stateless then none
+    else
+      let i := st.next
+      let st1 := doL (doL (doL st (.postBegin none u k)) (.serverClose i)) (.closeDone i)
+      match step st1 (.publish i) with
+      | some (st2, .forward hdr _) =>
+        let hdrS := match hdr with | some j => sname j | none => "-"
+        some { base with st := doL st2 (.postEnd (some i) true), head := s!"200 {hdrS}" }
+      | _ => none
   | ["release", ks] => do
     let k ← ks.toNat?
     if k = 0 || k > d.nslow || d.released.contains k then some { base with head := "noop -" }
@@ -302,12 +328,15 @@ structure MonRes where
   mon : List MSess
   mnow : Nat
   mpend : List (String × String)
+  zombies : List String
   viol : Option String := none
+
+def f20 : String := "C11: F20 session closed by the server during its creating POST is kept in the handler's table"
 
 def firstViol (a b : Option String) : Option String := match a with | some x => some x | none => b
 
 /-- The C11 clauses evaluated on one observation of the implementation. -/
-def monitorOp (cfg : Cfg) (d : DState) (toks : List String) (o : Obs) : MonRes :=
+def monitorOp (cfg : Cfg) (d : DState) (toks : List String) (racy : Bool) (o : Obs) : MonRes :=
   let now := match toks with
     | ["tick", ms] => d.mnow + ms.toNat?.getD 0
     | _ => d.mnow
@@ -429,7 +458,8 @@ def monitorOp (cfg : Cfg) (d : DState) (toks : List String) (o : Obs) : MonRes :
       else (acc.1, acc.2)
     | none =>
       let e : MSess := { name := nm, owner := ow, status := 0, posts := 0, idleSince := now }
-      let v := if op == "post" && ref == "-" && !cfg.stateless then
+      let v := if racy then some f20
+        else if op == "post" && ref == "-" && !cfg.stateless then
           (if kind != "init" then some "C11:dead_after_removal: session kept after a failed initialize"
            else if ow != ownerOfUser user then some "C11:owner_binding: session bound to a user other than its creator"
            else if o.hdr != nm then some "C11:id_minted_only_on_creating_post: created session is not the one named in the response"
@@ -462,8 +492,14 @@ def monitorOp (cfg : Cfg) (d : DState) (toks : List String) (o : Obs) : MonRes :
           firstViol acc (some s!"C11:dead_after_removal: handler table keeps {n} which the server has dropped")) none)
   let v5e : Option String :=
     if creatingInit && accepted2xx && o.hdr == "-" then some "C11:id_minted_only_on_creating_post: creating initialize answered without a session id" else none
-  { mon := mon5, mnow := now, mpend := mpend2,
-    viol := firstViol v1 (firstViol v2 (firstViol v3 (firstViol v5a (firstViol v5b (firstViol v5c (firstViol v5d v5e)))))) }
+  -- F20: once a session that the server closed during its creation sits in the handler's table, every
+  -- clause it breaks afterwards is the same defect
+  let zombies := d.zombies ++ (if racy then names.filter (fun n => (monFind mon2 n).isNone) else [])
+  let viol := firstViol v1 (firstViol v2 (firstViol v3 (firstViol v5a (firstViol v5b (firstViol v5c (firstViol v5d v5e))))))
+  let viol := if names.any zombies.contains then
+      viol.map (fun c => if c.startsWith "C11: F20" then c else s!"{f20}; then {c}")
+    else viol
+  { mon := mon5, mnow := now, mpend := mpend2, zombies := zombies, viol := viol }
 
 /-! ## the engine -/
 
@@ -472,25 +508,33 @@ def engine : Engine DState where
   step d toks impl :=
     match toks with
     | ["reset", mode, ms] =>
-      let cfg : Cfg := { stateless := mode == "stateless", timeout := ms.toNat?.getD 0 }
+      let cfg : Cfg := { stateless := mode == "stateless", timeout := ms.toNat?.getD 0,
+                         publishChecks := Generated.Sessions.publishChecksClosed }
       ({ st := init cfg }, { model := "ok" })
     | ["reset"] => ({}, { model := "ok" })
     | ["end"] =>
       let want := "end stuck=0 map=0 srv=0"
-      (d, { model := want,
+      -- (the unrepaired publication of F20 leaves its dead sessions behind: the model follows it)
+      let left := (d.st.tbl.filter (fun e => e.inMap && e.removed)).length
+      (d, { model := s!"end stuck=0 map={left} srv=0",
             violated := if impl == want then none
+              else if !d.zombies.isEmpty then some s!"{f20}; then C11:dead_after_removal: sessions left after every session was closed"
               else some "C11:dead_after_removal: requests or sessions left after every session was closed" })
     | _ =>
       let o := parseObs impl
-      let mr := monitorOp d.st.cfg d toks o
+      let (mtoks, racy) := match toks with
+        | ["postx", u, k] => (["post", "-", u, k], true)
+        | _ => (toks, false)
+      let mr := monitorOp d.st.cfg d mtoks racy o
       match modelOp d toks with
-      | none => ({ d with mon := mr.mon, mnow := mr.mnow, mpend := mr.mpend }, { model := "bad-op", violated := mr.viol })
+      | none => ({ d with mon := mr.mon, mnow := mr.mnow, mpend := mr.mpend, zombies := mr.zombies },
+                 { model := "bad-op", violated := mr.viol })
       | some m =>
         let st := settle m.st
         let (doneC, pend, st) := completions st m.pend
         let model := s!"{m.head} done:{joinOr (sortStrs (m.done ++ doneC))} map:{showMap st} srv:{showSrv st} log:{joinOr (sortStrs m.log)}"
         ({ st := st, nslow := m.nslow, nasync := m.nasync, released := m.released, pend := pend,
-           mon := mr.mon, mnow := mr.mnow, mpend := mr.mpend },
+           mon := mr.mon, mnow := mr.mnow, mpend := mr.mpend, zombies := mr.zombies },
          { model := model, violated := mr.viol })
 
 end Sessions
